@@ -869,7 +869,7 @@ def ledger_leg(o, name, classes, mode, n, seed, max_k=120):
     def gen(i):
         f = os.path.join(wd, f"h{i}.ndjson")
         core.run_nlh(["gen-heap", "--mode", mode, "--seed", seed * 1031 + i, "--n", per, "--max-k", max_k,
-                      "--first-id", i * 1000000 + 1, "--out", f], timeout=3000)
+                      "--directed", 1 if i == 0 else 0, "--first-id", i * 1000000 + 1, "--out", f], timeout=3000)
         return f
     files = core.parallel(gen, list(range(shards)))
     # one TLC state per event, each holding the live set: a ledger of tens of thousands of events (a loop that allocates
@@ -1785,7 +1785,7 @@ def float_leg(o, name, extra, seed):
             rec = recs[v["id"]]
             if v["class"] == "mismatch":
                 for (op, form) in v["wrong"][:3]:
-                    ob = (rec["cmp"].get(op) or rec["ar"].get(op))[form - 1]
+                    ob = rec["lit"][form - 1] if op == "literal" else (rec["cmp"].get(op) or rec["ar"].get(op))[form - 1]
                     o.violation({"leg": name, "rule": "float-operator", "op": op, "form": form, "a": rec["at"], "b": rec["bt"],
                                  "observed": ob, "class": {"E": "Err", "X": "Panic"}.get(ob.get("c"), "Value"),
                                  "msg": ob.get("what"), "loc": ob.get("loc")},
